@@ -287,7 +287,7 @@ def _cases(draw, large=False):
     fav = prog in FAV
     if table['reifications'] and (fav or draw(st.booleans())):
         # collapsible reified nodes written in the text; with the favoured program orders more often along the rightmost path
-        j = trees.reify_in_tree(draw, j, table, prob=(1, 3) if draw(st.booleans()) else (2, 3), tail=draw(st.integers(0, 2 if not fav else 1)) == 0)
+        j = trees.reify_in_tree(draw, j, table, prob=(1, 3) if draw(st.booleans()) else (2, 3), tail=draw(st.integers(0, 2 if not fav else 1)) == 0, twins=True)
     if draw(st.integers(0, 7)) == 0:
         j = trees.add_decoy(draw, j, table)
     case = {'src': 'tree', 'tree': j, 'model': spec, 'program': prog, 'strip': draw(st.integers(0, 3)) == 0}
